@@ -18,6 +18,91 @@ def build(params):
     return world
 
 
+from ..world import Monitor
+
+
+class _Signals(Monitor):
+    '''Collects the transfer signals of both sides in emission order.'''
+    name = 'signals'
+
+    def __init__(self):
+        self.recv_finished = {'A': [], 'B': []}
+        self.send_finished = {'A': [], 'B': []}
+
+    def on_bus(self, world, proc, rec):
+        if rec[0] == 'signal':
+            if rec[3] == 'recv_bundle_finished':
+                self.recv_finished[proc.name].append(str(rec[4][0]))
+            elif rec[3] == 'send_bundle_finished':
+                self.send_finished[proc.name].append(str(rec[4][0]))
+        return ()
+
+
+def run_many(params, known):
+    '''Order beyond the small graphs: N = 1..12 bundles queued one way on one session and not
+    popped until the end (two-digit transfer ids appear).  Under a fixed fair schedule the
+    receive queue listing is read after every step: it must always be the ids in arrival order,
+    the send queue listing the unfinished ids in the order queued; finally popping in listed
+    order must hand out the bundles in the order sent.'''
+    from ..tcpcl_world import PATH, IFACE
+    from ..world import Violation
+    violations = []
+    count = 0
+    for seg in (4, 1):
+        for n in range(1, 13):
+            count += 1
+            datas = [hexn(1 + (k % 3), 0x10 * (k + 1)) for k in range(n)]
+            prm = dict(scripts={'A': [('send', d) for d in datas], 'B': []}, auto_pop=False,
+                       seg_mru={'A': seg, 'B': seg}, tx_init={'A': seg, 'B': seg})
+            w = TcpclWorld(prm)
+            sig = _Signals()
+            esc = EscapeMonitor(PROP)
+            w.monitors = [sig, esc]
+            case = dict(bundles=n, segment_size=seg)
+            found = None
+            queued = []
+            steps = 0
+            turn = 0
+            while steps < 20000 and found is None:
+                steps += 1
+                evs = w.enabled_events()
+                user = [e for e in evs if e[0] == 'user']
+                runs = [e for e in evs if e[0] == 'run']
+                if user and w.handler('A').get_session_state() == 'established':
+                    (vs, _e) = w.apply(user[0])
+                    res = w.results['A'][-1] if w.results['A'] else None
+                    queued.append(str(len(queued) + 1))
+                elif runs:
+                    turn += 1
+                    pick = runs[turn % len(runs)]
+                    (vs, _e) = w.apply(pick)
+                else:
+                    break
+                if vs:
+                    found = 'escaped exception: %s' % (vs[0].detail[:300],)
+                    break
+                rq = w.bus_call(w.procs['B'], PATH, 'recv_bundle_get_queue', iface=IFACE)
+                sq = w.bus_call(w.procs['A'], PATH, 'send_bundle_get_queue', iface=IFACE)
+                if rq[0] == 'ok' and [str(x) for x in rq[1]] != sig.recv_finished['B']:
+                    found = 'receive queue lists %r, bundles arrived in the order %r' % ([str(x) for x in rq[1]], sig.recv_finished['B'])
+                want_sq = [q for q in queued if q not in sig.send_finished['A']]
+                if sq[0] == 'ok' and [str(x) for x in sq[1]] != want_sq:
+                    found = 'send queue lists %r, queued and unfinished are %r' % ([str(x) for x in sq[1]], want_sq)
+            if found is None:
+                rq = w.bus_call(w.procs['B'], PATH, 'recv_bundle_get_queue', iface=IFACE)
+                got = []
+                for bid in (rq[1] if rq[0] == 'ok' else []):
+                    res = w.bus_call(w.procs['B'], PATH, 'recv_bundle_pop_data', str(bid), iface=IFACE)
+                    got.append(bytes(res[1]).hex() if res[0] == 'ok' else repr(res))
+                if got != datas:
+                    found = 'popping in listed order yields %r, sent %r' % (got, datas)
+            if found and len(violations) < 4:
+                v = Violation(PROP, 'delivery', 'queue-order-differs-from-arrival-order', dict(), '%r: %s' % (case, found)).as_dict()
+                v['case'] = case
+                violations.append(v)
+    return dict(name=params['name'], evaluations=count, nontrivial_keys=[], violations=violations, known=[], samples=[])
+
+
 def _scen(name, scripts, dev_bound=0, weight=1, **over):
     params = dict(scripts=scripts, devs=DEVS if dev_bound else ())
     params.update(over)
@@ -57,6 +142,7 @@ def scenarios(tier):
     out.append(_scen('clamp-A6-d1', {'A': [s6], 'B': []}, dev_bound=1, tx_init={'A': 64, 'B': 64}, weight=10))
     # small stream chunks: every message straddles several writes without any deviation
     out.append(_scen('chunk5-A3', {'A': [s3], 'B': []}, dev_bound=0, chunk=5, weight=40))
+    out.append(dict(name='many-transfers', kind='enum', runner='run_many', params=dict(name='many-transfers'), weight=30))
     if thorough:
         out.append(shape(3, 1, 1))
         out.append(_scen('W1-A1+A1-d1', {'A': [s1, s1b], 'B': []}, dev_bound=1, weight=40))
@@ -77,7 +163,7 @@ ASSUMPTIONS = [
     'TCP modelled as a reliable FIFO byte pipe with short reads/writes and EAGAIN; no resets',
     'each event-loop callback is one atomic transition (it performs at most one socket call)',
     'GLib dispatch order as probed from PyGObject 3.42 (io/timeout before idle, attach order)',
-    'bundles of at most 9 octets, at most two per direction, segment sizes 1, 4 and clamped 64->4',
+    'bundles of at most 9 octets, at most two per direction, segment sizes 1, 4 and clamped 64->4 (state graphs); 1..12 unpopped bundles one way under one fair schedule with the queue listings read after every step (enumeration many-transfers)',
 ]
 
 RULE = ('explicit-state BFS over canonical world states of two real ContactHandler objects; every '
@@ -87,4 +173,10 @@ RULE = ('explicit-state BFS over canonical world states of two real ContactHandl
 
 
 def evidence(tier, seed, scens, results, wall_s):
-    return graph_evidence(PROP, tier, seed, scens, results, wall_s, ASSUMPTIONS, RULE)
+    graphs = [r for r in results if r and r.get('kind') == 'graph']
+    enums = [r for r in results if r and r.get('kind') == 'enum']
+    ev = graph_evidence(PROP, tier, seed, [sc for sc in scens if sc['kind'] == 'graph'], graphs, wall_s, ASSUMPTIONS, RULE)
+    cov = ev['coverage']
+    cov['evaluations'] = sum(r.get('evaluations', 0) for r in enums)
+    cov['exhaustive'] = cov['exhaustive'] and len([r for r in results if r and r.get('kind') != 'error']) == len(results)
+    return ev
